@@ -104,19 +104,22 @@ theorem task_pipeline (env : Env) (fuel : Nat) (states : Json) (name fn : Str)
     (hr : rpcFunction ((fldStr state "Resource").getD []) = some fn)
     (hi : applyPath data ctx (pathArg state "InputPath") = .ok input)
     (hp : tmplOpt env input ctx (fld state "Parameters") = .ok params)
+    (tEnd : Rat)
+    (ha : taskArrival (env.delay fn params (bump st.counts (fn, params)).1) (taskDeadline state st.clock) st.clock
+      = some (tEnd, false))
     (hv : taskReply env.maxData (env.task fn params (bump st.counts (fn, params)).1) = .ok v)
     (hs : tmplOpt env v ctx (fld state "ResultSelector") = .ok result)
     (hm : mergeResult data ctx result state = .ok out) :
     runState env (fuel + 1) states name state data ctx retries st =
       leave env fuel states name state data out ctx retries
         (st.taskCall (bump st.counts (fn, params)).2 ((fldStr state "Resource").getD []) params
-          (env.task fn params (bump st.counts (fn, params)).1) env.maxData) := by
+          (replyEv env.maxData (env.task fn params (bump st.counts (fn, params)).1)) tEnd) := by
   have h1 : (S "Task" = S "Pass") = False := by decide
   have h2 : (S "Task" = S "Succeed") = False := by decide
   have h3 : (S "Task" = S "Fail") = False := by decide
   have h4 : (S "Task" = S "Wait") = False := by decide
   have h5 : (S "Task" = S "Choice") = False := by decide
-  simp [runState, h, h1, h2, h3, h4, h5, hr, hi, hp, hv, hs, hm]
+  simp [runState, h, h1, h2, h3, h4, h5, hr, hi, hp, ha, taskOutcome, taskEv, hv, hs, hm]
 
 /-- a worker's reply whose text is longer than the size limit is the error `States.DataLimitExceeded`,
 whatever it says; a reply within the limit is read by `decodeReply` -/
@@ -136,17 +139,20 @@ theorem task_error_goes_to_handler (env : Env) (fuel : Nat) (states : Json) (nam
     (hr : rpcFunction ((fldStr state "Resource").getD []) = some fn)
     (hi : applyPath data ctx (pathArg state "InputPath") = .ok input)
     (hp : tmplOpt env input ctx (fld state "Parameters") = .ok params)
+    (tEnd : Rat)
+    (ha : taskArrival (env.delay fn params (bump st.counts (fn, params)).1) (taskDeadline state st.clock) st.clock
+      = some (tEnd, false))
     (hv : taskReply env.maxData (env.task fn params (bump st.counts (fn, params)).1) = .err e msg) :
     runState env (fuel + 1) states name state data ctx retries st =
       handleErr env fuel states name state data ctx retries e msg
         (st.taskCall (bump st.counts (fn, params)).2 ((fldStr state "Resource").getD []) params
-          (env.task fn params (bump st.counts (fn, params)).1) env.maxData) := by
+          (replyEv env.maxData (env.task fn params (bump st.counts (fn, params)).1)) tEnd) := by
   have h1 : (S "Task" = S "Pass") = False := by decide
   have h2 : (S "Task" = S "Succeed") = False := by decide
   have h3 : (S "Task" = S "Fail") = False := by decide
   have h4 : (S "Task" = S "Wait") = False := by decide
   have h5 : (S "Task" = S "Choice") = False := by decide
-  simp [runState, h, h1, h2, h3, h4, h5, hr, hi, hp, hv]
+  simp [runState, h, h1, h2, h3, h4, h5, hr, hi, hp, ha, taskOutcome, taskEv, hv]
 
 /-- after a successful fan-out: ResultSelector on the array of results, ResultPath into the
 fan-out state's *raw* input (not its effective input), OutputPath, then Next/End -/
@@ -198,50 +204,32 @@ theorem parallel_results_in_branch_order (env : Env) (fuel : Nat) (bs : List Jso
         generalize hr : runFrom env n states start params ctx 0 st = r at h
         obtain ⟨r1, s1⟩ := r
         simp only at h
-        generalize hrest : runBranches env n bs params ctx s1 = rr at h
+        generalize hrest : runBranches env n bs params ctx (s1.at st.clock) = rr at h
         obtain ⟨rest, s2⟩ := rr
         simp only at h
-        cases r1 with
-        | done v =>
-          cases rest with
-          | ok vs' =>
-            simp at h
-            obtain ⟨h1, _⟩ := h
-            subst h1
-            have := ih n s1 s2 vs' hrest
-            refine ⟨by simp [this.1], ?_⟩
-            intro k hk
-            cases k with
-            | zero => exact ⟨v, by simp, n, st, s1, start, states, hs, hst, hr⟩
-            | succ k =>
-              obtain ⟨v', q1, q2⟩ := this.2 k (by simpa using hk)
-              exact ⟨v', by simpa using q1, by simpa using q2⟩
-          | error e => simp at h
-        | failed e c f =>
-          rcases rest with a | vs'
-          · cases a <;> simp at h
-          · simp at h
-        | fuel =>
-          rcases rest with a | vs'
-          · cases a <;> simp at h
-          · simp at h
-        | unsupported w =>
-          rcases rest with a | vs'
-          · cases a <;> simp at h
-          · simp at h
+        obtain ⟨v, vs', e1, e2, e3, _⟩ := fanCombine_ok h
+        subst e1 e2 e3
+        have := ih n _ s2 vs' hrest
+        refine ⟨by simp [this.1], ?_⟩
+        intro k hk
+        cases k with
+        | zero => exact ⟨v, by simp, n, st, s1, start, states, hs, hst, hr⟩
+        | succ k =>
+          obtain ⟨v', q1, q2⟩ := this.2 k (by simpa using hk)
+          exact ⟨v', by simpa using q1, by simpa using q2⟩
       · simp at h
 
 /-- Map yields the iteration outputs in item order, iteration k seeing item k (through the
 ItemSelector when there is one, with `$$.Map.Item.Index = k`). -/
 theorem map_results_in_item_order (env : Env) (fuel : Nat) (proc : Json) (sel : Option Json) (input : Json)
-    (items : List Json) (i0 : Nat) (ctx : Json) (st st' : St) (vs : List Json)
-    (h : runItems env fuel proc sel input items i0 ctx st = (.ok vs, st')) :
+    (items : List Json) (i0 mc : Nat) (be : Rat) (ctx : Json) (st st' : St) (vs : List Json)
+    (h : runItems env fuel proc sel input items i0 mc be ctx st = (.ok vs, st')) :
     vs.length = items.length ∧
     ∀ k (hk : k < items.length), ∃ f s1 s2 start states params v,
       fldStr proc "StartAt" = some start ∧ fld proc "States" = some states ∧
       (if isTrue sel then tmplOpt env input (ctxWithMapItem ctx (i0 + k) items[k]) sel else .ok items[k]) = .ok params ∧
       runFrom env f states start params ctx 0 s1 = (.done v, s2) ∧ vs[k]? = some v := by
-  induction items generalizing fuel st st' vs i0 with
+  induction items generalizing fuel st st' vs i0 be with
   | nil =>
     cases fuel with
     | zero => simp [runItems] at h
@@ -254,49 +242,33 @@ theorem map_results_in_item_order (env : Env) (fuel : Nat) (proc : Json) (sel : 
     | zero => simp [runItems] at h
     | succ n =>
       simp only [runItems] at h
+      generalize (if mc ≠ 0 ∧ i0 ≠ 0 ∧ i0 % mc = 0 then st.waitUntil be else st) = st0 at h
       split at h
       · simp at h
       · rename_i params hp
         split at h
         · rename_i start states hs hst
-          generalize hr : runFrom env n states start params ctx 0 (st.push (.iterStarted (ctxStateName ctx) i0)) = r at h
+          generalize hr : runFrom env n states start params ctx 0 (st0.push (.iterStarted (ctxStateName ctx) i0)) = r at h
           obtain ⟨r1, s1⟩ := r
           simp only at h
-          generalize hrest : runItems env n proc sel input items (i0 + 1) ctx (s1.iterEnd (ctxStateName ctx) i0 r1) = rr at h
+          generalize hrest : runItems env n proc sel input items (i0 + 1) mc (rmax be s1.clock) ctx
+            ((s1.iterEnd (ctxStateName ctx) i0 r1).at st0.clock) = rr at h
           obtain ⟨rest, s2⟩ := rr
           simp only at h
-          cases r1 with
-          | done v =>
-            cases rest with
-            | ok vs' =>
-              simp at h
-              obtain ⟨h1, _⟩ := h
-              subst h1
-              have := ih n (i0 + 1) _ s2 vs' hrest
-              refine ⟨by simp [this.1], ?_⟩
-              intro k hk
-              cases k with
-              | zero =>
-                exact ⟨n, _, s1, start, states, params, v, hs, hst, by simpa using hp, hr, by simp⟩
-              | succ k =>
-                obtain ⟨f, a, b, start', states', params', v', q1, q2, q3, q4, q5⟩ :=
-                  this.2 k (by simpa using hk)
-                refine ⟨f, a, b, start', states', params', v', q1, q2, ?_, q4, by simpa using q5⟩
-                have : i0 + 1 + k = i0 + (k + 1) := by omega
-                simpa [this] using q3
-            | error e => simp at h
-          | failed e c f =>
-          rcases rest with a | vs'
-          · cases a <;> simp at h
-          · simp at h
-          | fuel =>
-            rcases rest with a | vs'
-            · cases a <;> simp at h
-            · simp at h
-          | unsupported w =>
-            rcases rest with a | vs'
-            · cases a <;> simp at h
-            · simp at h
+          obtain ⟨v, vs', e1, e2, e3, _⟩ := fanCombine_ok h
+          subst e1 e2 e3
+          have := ih n (i0 + 1) _ _ s2 vs' hrest
+          refine ⟨by simp [this.1], ?_⟩
+          intro k hk
+          cases k with
+          | zero =>
+            exact ⟨n, _, s1, start, states, params, v, hs, hst, by simpa using hp, hr, by simp⟩
+          | succ k =>
+            obtain ⟨f, a, b, start', states', params', v', q1, q2, q3, q4, q5⟩ :=
+              this.2 k (by simpa using hk)
+            refine ⟨f, a, b, start', states', params', v', q1, q2, ?_, q4, by simpa using q5⟩
+            have : i0 + 1 + k = i0 + (k + 1) := by omega
+            simpa [this] using q3
         · simp at h
 
 /-- Choice (with the comparison fragment of `Lite`): the rules are tried in array order and the
@@ -388,7 +360,7 @@ private def par2 : Json := .obj [(k "StartAt", .str (k "B")), (k "States", .obj 
   .obj [(k "Type", .str (k "Pass")), (k "Result", .num 2), (k "End", .bool true)])])]
 example : (runBranches envK 10 [par, par2] (.obj []) (.obj []) {}).1 = .ok [.num 1, .num 2] := by rfl
 
-example : (runItems envK 10 par none (.obj []) [.num 7, .num 8] 0 (.obj []) {}).1 = .ok [.num 1, .num 1] := by rfl
+example : (runItems envK 10 par none (.obj []) [.num 7, .num 8] 0 0 0 (.obj []) {}).1 = .ok [.num 1, .num 1] := by rfl
 
 example : Lite.choose.go (.obj [(k "n", .num 3)]) (.obj [])
     [.obj [(k "Variable", .str (k "$.n")), (k "NumericEquals", .num 1), (k "Next", .str (k "X"))],
